@@ -212,7 +212,7 @@ Inductive xatom :=
 | XType (an : appname) (table : bool) (n : name) (a : list entry) (annos : list anno) (fs : list fielddecl)
 | XRepl (an : appname) (n : name) (t : option typeent)
 | XEp (an : appname) (n : name) (a : list entry) (annos : list anno) (params : list name) (body : list stmt)
-| XEvent (an : appname) (n : name) (params : list name) (body : list stmt)
+| XEvent (an : appname) (n : name) (a : list entry) (params : list name) (body : list stmt)
 | XMeth (an : appname) (x : epkey * list name * methoddecl)
 | XSub (an : appname) (key : name) (pub : appname) (a : list entry) (annos : list anno) (body : list stmt)
 | XSubCall (pub : appname) (evt : name) (caller : appname) (key : name)
@@ -221,7 +221,7 @@ Inductive xatom :=
 
 Definition x_app (x : xatom) : appname :=
   match x with
-  | XHead an _ _ | XAnno an _ | XType an _ _ _ _ _ | XRepl an _ _ | XEp an _ _ _ _ _ | XEvent an _ _ _
+  | XHead an _ _ | XAnno an _ | XType an _ _ _ _ _ | XRepl an _ _ | XEp an _ _ _ _ _ | XEvent an _ _ _ _
   | XMeth an _ | XSub an _ _ _ _ _ | XSubCall an _ _ _ | XMixin an _ | XDots an => an
   end.
 
@@ -237,7 +237,7 @@ Definition x_op (mode : pkmode) (x : xatom) : cellop :=
   | XType _ table n a annos fs => OType n (type_g mode table a annos fs)
   | XRepl _ n t => OType n (repl_g t)
   | XEp _ n a annos params body => OEp (None, [n]) (ep_f a annos params body)
-  | XEvent _ n params body => OEp (None, [n]) (event_f params body)
+  | XEvent _ n a params body => OEp (None, [n]) (event_f a params body)
   | XMeth _ (k, u, m) => OEp k (method_f u m)
   | XSub _ key pub a annos body => OEp (None, [key]) (sub_f pub a annos body)
   | XSubCall _ evt caller key => OEp (None, [evt]) (subcall_f caller key)
@@ -254,9 +254,10 @@ Definition micro (x : atom) : list xatom :=
   | AMem an (ME n a annos items) => [XRepl an n (enum_ent a annos items)]
   | AMem an (MAl n a annos ty) => [XRepl an n (alias_ent a annos ty)]
   | AMem an (MU n a alts) => [XRepl an n (union_ent a alts)]
+  | AMem an (MVw n annos sg) => [XRepl an n (view_ent annos sg)]
   | AMem an (MP n a annos params body) => [XEp an n a annos params body]
-  | AMem an (MV n params body) => [XEvent an n params body]
-  | AMem an (MR r) => XHead an None [] :: map (XMeth an) (rest_eps [] [] r)
+  | AMem an (MV n a params body) => [XEvent an n a params body]
+  | AMem an (MR r) => XHead an None [] :: map (XMeth an) (rest_eps [] [] [] r)
   | AMem an (MX x) => [XMixin an x]
   | AMem an (MS key pub evt a annos body) => [XSub an key pub a annos body; XSubCall pub evt an key]
   | AMem an (MA x) => [XAnno an x]
@@ -287,8 +288,8 @@ Qed.
 Lemma step_micro mode s x : step mode s x = fold_left (xstep mode) (micro x) s.
 Proof.
   destruct s as [m p]. destruct x as [an long a|an mem]; [reflexivity|].
-  destruct mem as [table n a annos fs|n a annos items|n a annos ty|n a alts|n a annos params body|n params body|r|x
-                  |key pub evt a annos body|x|]; cbn [micro fold_left].
+  destruct mem as [table n a annos fs|n a annos items|n a annos ty|n a alts|n a annos params body|n a params body|r|x
+                  |n annos sg|key pub evt a annos body|x|]; cbn [micro fold_left].
   - reflexivity.
   - unfold step, member_step; cbn [fst snd]. apply repl_step_op.
   - unfold step, member_step; cbn [fst snd]. apply repl_step_op.
@@ -303,6 +304,7 @@ Proof.
     unfold step, member_step, xstep, apply_op; cbn [x_app x_op fst snd]. unfold mixin_g; cbn [fst snd].
     rewrite partial_alter_self, app_eta. f_equal.
     apply partial_alter_ext. intros y <-. reflexivity.
+  - unfold step, member_step; cbn [fst snd]. apply repl_step_op.
   - reflexivity.
   - reflexivity.
   - reflexivity.
@@ -572,7 +574,7 @@ Lemma type_g_fusion table a an1 an2 fs1 fs2 : disjoint_names (names fs1) (names 
             = seq_g (type_g PkUnion table a an1 fs1) (type_g PkUnion table [] an2 fs2) t p.
 Proof.
   intros Hd t p. unfold seq_g, type_g.
-  destruct (default (TRec table ∅ ∅) t) as [rel a0 fs0|a0 items|a0 ty|a0 alts];
+  destruct (default (TRec table ∅ ∅) t) as [rel a0 fs0|a0 items|a0 ty|a0 alts|a0 sg];
     cbn [fst snd default from_option id tattrs tattrs_step]; rewrite annos_step_app; try reflexivity.
   rewrite insert_fields_app. f_equal.
   destruct rel; [|reflexivity].
@@ -608,7 +610,7 @@ Lemma type_g_comm table a1 an1 fs1 a2 an2 fs2 : share_compat a1 an1 fs1 a2 an2 f
 Proof.
   intros (Ha & Hd & H12 & H21 & Hf) t p. unfold seq_g, type_g.
   pose proof (share_attrs_comm a1 an1 a2 an2 Ha Hd H12 H21) as Hat.
-  destruct (default (TRec table ∅ ∅) t) as [rel a0 fs0|a0 items|a0 ty|a0 alts];
+  destruct (default (TRec table ∅ ∅) t) as [rel a0 fs0|a0 items|a0 ty|a0 alts|a0 sg];
     cbn [fst snd default from_option id tattrs]; rewrite Hat; try (split; reflexivity).
   split.
   - rewrite (insert_fields_comm fs1 fs2) by exact Hf. reflexivity.
@@ -626,7 +628,7 @@ Definition x_cellid (x : xatom) : cellid :=
   match x with
   | XHead _ _ _ | XAnno _ _ => CHead
   | XType _ _ n _ _ _ | XRepl _ n _ => CType n
-  | XEp _ n _ _ _ _ | XEvent _ n _ _ => CEp (None, [n])
+  | XEp _ n _ _ _ _ | XEvent _ n _ _ _ => CEp (None, [n])
   | XMeth _ (k, _, _) => CEp k
   | XSub _ key _ _ _ _ => CEp (None, [key])
   | XSubCall _ evt _ _ => CEp (None, [evt])
@@ -653,8 +655,8 @@ Definition frag_compat (x y : xatom) : Prop :=
   | XAnno an' x, XHead an l a => an = an' /\ ~ In (fst x) (hkeys a)
   | XAnno an x, XAnno an' y => an = an' /\ fst x <> fst y
   | XMixin an _, XMixin an' _ => an = an'
-  | XEvent an n params body, XSubCall pub evt _ _ => an = pub /\ n = evt /\ params = [] /\ body = []
-  | XSubCall pub evt _ _, XEvent an n params body => an = pub /\ n = evt /\ params = [] /\ body = []
+  | XEvent an n _ params body, XSubCall pub evt _ _ => an = pub /\ n = evt /\ params = [] /\ body = []
+  | XSubCall pub evt _ _, XEvent an n _ params body => an = pub /\ n = evt /\ params = [] /\ body = []
   | _, _ => False
   end.
 Definition indep (x y : xatom) : Prop := x_cell x <> x_cell y \/ frag_compat x y.
@@ -682,7 +684,7 @@ Lemma good_x mode x : good_op (x_op mode x).
 Proof.
   destruct x as [| | an table n a annos fs | an n t | | |? [[? ?] ?]| | | an x|]; cbn; try exact I.
   - intros t p p' Hp. unfold type_g.
-    destruct (default (TRec table ∅ ∅) t) as [rel a0 fs0|a0 its|a0 ty|a0 alts]; cbn [fst snd];
+    destruct (default (TRec table ∅ ∅) t) as [rel a0 fs0|a0 its|a0 ty|a0 alts|a0 sg]; cbn [fst snd];
       (split; [reflexivity|]); try exact Hp.
     destruct rel; [apply pk_update_oeq, Hp|exact Hp].
   - intros t0 p p' Hp. unfold repl_g. destruct t; cbn [fst snd]; split; try reflexivity. exact Hp.
@@ -715,8 +717,8 @@ Lemma xstep_comm s x y : indep x y ->
 Proof.
   intros [Hc|Hf].
   - unfold xstep. rewrite apply_comm_ne; [reflexivity|]. rewrite !op_cell_x. unfold x_cell in Hc. congruence.
-  - destruct x as [an l a|an x|an t n a annos fs| | |an n params body| | |pub evt caller key|an x|],
-             y as [an' l' a'|an' y|an' t' n' a' annos' fs'| | |an' n' params' body'| | |pub' evt' caller' key'|an' y|];
+  - destruct x as [an l a|an x|an t n a annos fs| | |an n ea params body| | |pub evt caller key|an x|],
+             y as [an' l' a'|an' y|an' t' n' a' annos' fs'| | |an' n' ea' params' body'| | |pub' evt' caller' key'|an' y|];
       cbn in Hf; try contradiction.
     + (* header / bare header *)
       destruct Hf as [<- [[-> ->]|[-> ->]]].
@@ -830,7 +832,7 @@ Lemma type_g_perm table a annos annos' fs fs' : Permutation fs fs' -> Permutatio
 Proof.
   intros Hp Hpa Hnd Hna t p. unfold type_g.
   rewrite (annos_step_perm annos annos' Hpa Hna).
-  destruct (default (TRec table ∅ ∅) t) as [rel a0 fs0|a0 items|a0 ty|a0 alts]; cbn [fst snd]; try (split; reflexivity).
+  destruct (default (TRec table ∅ ∅) t) as [rel a0 fs0|a0 items|a0 ty|a0 alts|a0 sg]; cbn [fst snd]; try (split; reflexivity).
   rewrite (insert_fields_perm fs fs' Hp Hnd). split; [reflexivity|].
   destruct rel; [|reflexivity].
   unfold oeq. rewrite !pk_update_union_default. apply pk_union_perm; [|reflexivity].
@@ -1129,16 +1131,18 @@ Definition w2_pub : appname := [31].
 Definition w2_f1 := FD 40 10 false [].
 Definition w2_f2 := FD 41 10 true [EN 50 51].
 Definition w2_anno : anno := (56, VA [57; 58]).
+(* `/70 [~71]:` with `@72 = 73`, one method *)
+Definition w2_rest : rnode := RN [70] [] [ET 71] [(72, VS 73)] [MDh 74 [] [] [] [] [SA 60]] [].
 Definition w2_joined : list block :=
   [B w2_app (Some 32) [ET 33]
      [MA (52, VS 53); MT false 34 [EN 54 55] [w2_anno] [w2_f1; w2_f2]; MAl 35 [] [] 10; MX 36; MX 37;
-      MS 38 w2_pub 39 [] [] [SA 60]];
-   B w2_pub None [] [MV 39 [] []]].
+      MS 38 w2_pub 39 [] [] [SA 60]; MR w2_rest; MVw 75 [(72, VS 73)] 76];
+   B w2_pub None [] [MV 39 [ET 33] [] []]].
 Definition w2_files : list filedesc :=
-  [(20, ([22; 21], [B w2_app None [] [MT false 34 [] [w2_anno] [w2_f2]; MX 37];
-                    B w2_pub None [] [MV 39 [] []]]));
+  [(20, ([22; 21], [B w2_app None [] [MT false 34 [] [w2_anno] [w2_f2]; MVw 75 [(72, VS 73)] 76; MX 37];
+                    B w2_pub None [] [MV 39 [ET 33] [] []]]));
    (21, ([], [B w2_app (Some 32) [ET 33] [MX 36; MT false 34 [EN 54 55] [] [w2_f1]; MA (52, VS 53)]]));
-   (22, ([21], [B w2_app None [] [MS 38 w2_pub 39 [] [] [SA 60]; MAl 35 [] [] 10]]))].
+   (22, ([21], [B w2_app None [] [MS 38 w2_pub 39 [] [] [SA 60]; MR w2_rest; MAl 35 [] [] 10]]))].
 Local Close Scope positive_scope.
 
 Ltac find_split a r k :=
